@@ -9,9 +9,11 @@
       [nullable_str G α]     α ⇒* ε
       [follow_sem G A a]     S ⇒* u A a v for some u, v
       [follow_end G A]       S ⇒* u A for some u
-    The theorems hold for every order of the production list: the characterisations only depend
-    on membership in [prods G] ([C10_order_independent]), which is why Go's randomised iteration
-    order needs no oracle. *)
+    Go iterates over the productions in the randomised order of its hash tables, afresh in every
+    pass of every loop.  In the model that order is an oracle [O] (one production order per pass
+    and per loop); every theorem is stated for all oracles that enumerate exactly the productions
+    ([oracle_ok G O]), so the results are independent of the iteration order
+    ([C10_order_independent]).  The extracted model runs with [id_oracle G]. *)
 From Coq Require Import List Permutation.
 From Algo.C10 Require Import Model Spec Proofs.
 Import ListNotations.
@@ -19,16 +21,16 @@ Import ListNotations.
 (** NullableNonTerminals is exactly the set of non-terminals deriving the empty string
     (for every grammar, valid or not; the loop always terminates). *)
 Theorem C10_nullable :
-  forall G : gram, exists nu,
-    NullableNonTerminals G = Some nu /\ forall A, In A nu <-> nullable_nt G A.
+  forall (G : gram) (O : oracle), oracle_ok G O -> exists nu,
+    NullableNonTerminals G O = Some nu /\ forall A, In A nu <-> nullable_nt G A.
 Proof. exact nullable_thm. Qed.
 
 (** FIRST(α), α over the grammar's symbols, contains exactly the terminals that can begin a
     sentential form derived from α, plus ε iff α derives the empty string. *)
 Theorem C10_first :
-  forall (G : gram) (alpha : list sym),
+  forall (G : gram) (O : oracle), oracle_ok G O -> forall alpha : list sym,
     Forall (fun s => known G s = true) alpha ->
-    exists ts e, FIRST G alpha = Some (Ok (ts, e))
+    exists ts e, FIRST G O alpha = Some (Ok (ts, e))
                  /\ (forall a, In a ts <-> first_sem G alpha a)
                  /\ (e = true <-> nullable_str G alpha).
 Proof. exact first_thm. Qed.
@@ -36,72 +38,88 @@ Proof. exact first_thm. Qed.
 (** The FIRST closure panics on a symbol outside the grammar exactly when its scan reaches it,
     i.e. when everything before it derives ε. *)
 Theorem C10_first_panic :
-  forall (G : gram) (alpha : list sym) (X : sym) (beta : list sym),
+  forall (G : gram) (O : oracle), oracle_ok G O -> forall (alpha : list sym) (X : sym) (beta : list sym),
     Forall (fun s => known G s = true) alpha -> known G X = false ->
-    (FIRST G (alpha ++ X :: beta) = Some Panic <-> nullable_str G alpha).
+    (FIRST G O (alpha ++ X :: beta) = Some Panic <-> nullable_str G alpha).
 Proof. exact first_panic_thm. Qed.
 
 (** When every non-terminal is reachable from the start symbol, FOLLOW(A) contains exactly the
     terminals that can appear immediately after A in a sentential form derived from the start
     symbol, plus the endmarker iff A can end one. *)
 Theorem C10_follow :
-  forall (G : gram) (A : nat),
+  forall (G : gram) (O : oracle), oracle_ok G O -> forall A : nat,
     valid G -> all_reachable G -> In A (nonterms G) ->
-    exists ts e, FOLLOW G A = Some (Ok (ts, e))
+    exists ts e, FOLLOW G O A = Some (Ok (ts, e))
                  /\ (forall a, In a ts <-> follow_sem G A a)
                  /\ (e = true <-> follow_end G A).
 Proof. exact follow_thm. Qed.
 
 (** Without the reachability assumption FOLLOW is still complete (and total) for every grammar. *)
 Theorem C10_follow_complete :
-  forall (G : gram) (A : nat),
+  forall (G : gram) (O : oracle), oracle_ok G O -> forall A : nat,
     In A (nonterms G) ->
-    exists ts e, FOLLOW G A = Some (Ok (ts, e))
+    exists ts e, FOLLOW G O A = Some (Ok (ts, e))
                  /\ (forall a, follow_sem G A a -> In a ts) /\ (follow_end G A -> e = true).
 Proof. exact follow_complete_thm. Qed.
 
 (** A conflict in the predictive parsing table always comes with an IsLL1 error (every grammar). *)
 Theorem C10_ll1_conflict :
-  forall (G : gram) (t : table),
-    BuildParsingTable G = Some (t, true) -> IsLL1 G = Some false.
+  forall (G : gram) (O : oracle), oracle_ok G O -> forall t : table,
+    BuildParsingTable G O = Some (t, true) -> IsLL1 G O = Some false.
 Proof. exact ll1_conflict_thm. Qed.
 
 (** For valid grammars the error of BuildParsingTable says exactly whether some cell holds more
     than one production ... *)
 Theorem C10_table_cells :
-  forall G : gram, valid G ->
-    exists t c, BuildParsingTable G = Some (t, c) /\ (c = false <-> table_deterministic t).
+  forall (G : gram) (O : oracle), oracle_ok G O -> valid G ->
+    exists t c, BuildParsingTable G O = Some (t, c) /\ (c = false <-> table_deterministic t).
 Proof. exact table_cells_thm. Qed.
 
 (** ... and when all non-terminals are reachable and productive, IsLL1 reports no error exactly
     when the table has at most one production per cell. *)
 Theorem C10_ll1_table :
-  forall G : gram, valid G -> all_reachable G -> all_productive G ->
-    exists t c, BuildParsingTable G = Some (t, c)
-                /\ (IsLL1 G = Some true <-> c = false)
+  forall (G : gram) (O : oracle), oracle_ok G O -> valid G -> all_reachable G -> all_productive G ->
+    exists t c, BuildParsingTable G O = Some (t, c)
+                /\ (IsLL1 G O = Some true <-> c = false)
                 /\ (c = false <-> table_deterministic t).
 Proof. exact ll1_iff_thm. Qed.
 
 (** None of the fixpoint loops runs forever. *)
-Theorem C10_terminates : forall G : gram, analyse G <> None.
+Theorem C10_terminates : forall (G : gram) (O : oracle), oracle_ok G O -> analyse G O <> None.
 Proof. exact analyse_terminates. Qed.
 
-(** The nullable set does not depend on the order of the productions. *)
+(** The nullable set does not depend on the iteration oracle nor on the order in which the
+    productions are listed (the same follows for FIRST, and for FOLLOW under reachability, from
+    their characterisations above, which do not mention the oracle). *)
 Theorem C10_order_independent :
-  forall G G' : gram, Permutation (prods G) (prods G') -> start G = start G' ->
-    forall nu nu', NullableNonTerminals G = Some nu -> NullableNonTerminals G' = Some nu' ->
+  forall (G G' : gram) (O O' : oracle), oracle_ok G O -> oracle_ok G' O' ->
+    Permutation (prods G) (prods G') ->
+    forall nu nu', NullableNonTerminals G O = Some nu -> NullableNonTerminals G' O' = Some nu' ->
                    forall A, In A nu <-> In A nu'.
 Proof. exact order_independent. Qed.
+
+(** The oracle of the extracted model (the order of the production list in every pass) is one of
+    the oracles the theorems cover; so is every oracle made of permutations. *)
+Theorem C10_id_oracle_ok : forall G : gram, oracle_ok G (id_oracle G).
+Proof. exact id_oracle_ok. Qed.
+
+Theorem C10_permutation_oracle_ok :
+  forall (G : gram) (O : oracle),
+    (forall i, Permutation (o_null O i) (prods G)) ->
+    (forall i, Permutation (o_first O i) (prods G)) ->
+    (forall i, Permutation (o_follow O i) (prods G)) -> oracle_ok G O.
+Proof. exact permutation_oracle_ok. Qed.
 
 (** Non-vacuity:  S → A B t0 | ε ;  A → ε | t1 ;  B → A A  *)
 Example C10_example :
   let G := mkGrammar [0;1] [0;1;2]
              [mkProd 0 [Nt 1; Nt 2; Tm 0]; mkProd 0 []; mkProd 1 []; mkProd 1 [Tm 1]; mkProd 2 [Nt 1; Nt 1]] 0 in
-  NullableNonTerminals G = Some [2; 1; 0]
-  /\ FIRST G [Nt 2; Tm 0] = Some (Ok ([0; 1], false))
-  /\ FOLLOW G 1 = Some (Ok ([1; 0], false))
-  /\ IsLL1 G = Some false
-  /\ FIRST G [Nt 1; Tm 7] = Some Panic.
+  let O := id_oracle G in
+  NullableNonTerminals G O = Some [2; 1; 0]
+  /\ FIRST G O [Nt 2; Tm 0] = Some (Ok ([0; 1], false))
+  /\ FOLLOW G O 1 = Some (Ok ([1; 0], false))
+  /\ IsLL1 G O = Some false
+  /\ FIRST G O [Nt 1; Tm 7] = Some Panic.
 Proof. vm_compute. repeat split. Qed.
 
 (** the dragon-book expression grammar is LL(1) and its table has no conflict *)
@@ -109,7 +127,7 @@ Example C10_example_ll1 :
   let G := mkGrammar [0;1;2;3;4] [0;1;2;3;4]
              [mkProd 0 [Nt 2; Nt 1]; mkProd 1 [Tm 0; Nt 2; Nt 1]; mkProd 1 []; mkProd 2 [Nt 4; Nt 3];
               mkProd 3 [Tm 1; Nt 4; Nt 3]; mkProd 3 []; mkProd 4 [Tm 2; Nt 0; Tm 3]; mkProd 4 [Tm 4]] 0 in
-  IsLL1 G = Some true /\ (exists t, BuildParsingTable G = Some (t, false)) /\ verify G = true.
+  IsLL1 G (id_oracle G) = Some true /\ (exists t, BuildParsingTable G (id_oracle G) = Some (t, false)) /\ verify G = true.
 Proof. vm_compute. repeat split. eexists. reflexivity. Qed.
 
 Print Assumptions C10_nullable.
@@ -122,3 +140,5 @@ Print Assumptions C10_table_cells.
 Print Assumptions C10_ll1_table.
 Print Assumptions C10_terminates.
 Print Assumptions C10_order_independent.
+Print Assumptions C10_id_oracle_ok.
+Print Assumptions C10_permutation_oracle_ok.
